@@ -4,7 +4,7 @@
           | REFERENCES [schema.]table [(column)] [ON DELETE action] [ON UPDATE action] [NULL | NOT NULL]
    AST, rendering to lexemes, the entity the property prescribes for the parser stage (denote), the reference machine F. *)
 From Coq Require Import String Ascii List ZArith NArith Bool.
-From SDP Require Import Base PyStr Lexer Actions Engine Seq.
+From SDP Require Import Base PyStr Regex LR RealTables Lexer Actions Parse Engine Seq KeywordProofs Entity.
 Import ListNotations.
 Open Scope string_scope.
 
@@ -40,9 +40,22 @@ Record table := mkTable {
   t_first : column; t_rest : list column
 }.
 
+(* ---------- which grammar keywords may name a column / a referenced column --------------------------------------------- *)
+(* derived by running the model on the real tables; Proofs/TableProofs.colname_keywords_are_the_accepted *)
+Definition accepted_column_name (k : string) : bool :=
+  acc_at ("CREATE TABLE t ( " ++ k ++ " int )") 4 k && acc_at ("CREATE TABLE t ( a int , " ++ k ++ " int )") 7 k
+  && acc_at ("CREATE TABLE t ( a int REFERENCES o ( " ++ k ++ " ) )") 9 k.
+Definition colname_keywords : list string :=
+  ["ADD"; "ALTER"; "ARRAY"; "AS"; "AUTO_REFRESH"; "CACHE"; "CATALOG"; "CHANGE_TRACKING"; "CLONE"; "CLUSTERED"; "COLLECTION"; "COLUMN"; "COMMENT"; "CREATE"; "DATABASE"; "DATA_RETENTION_TIME_IN_DAYS"; "DEFAULT"; "DEFERRABLE"; "DELETE"; "DOMAIN"; "DROP"; "ENCODE"; "ENCRYPT"; "ENFORCED"; "ENGINE"; "ENUM"; "ESCAPED"; "EXISTS"; "FILE_FORMAT"; "FOR"; "FORMAT"; "GENERATED"; "IF"; "IN"; "INCREMENT"; "INHERITS"; "INITIALLY"; "INTO"; "INVISIBLE"; "ITEMS"; "KEY"; "KEYS"; "LOCATION"; "MAP"; "MASKING"; "MAXVALUE"; "MAX_DATA_EXTENSION_TIME_IN_DAYS"; "MINVALUE"; "MODIFY"; "NO"; "NOORDER"; "NOT"; "NULL"; "ON"; "OPTIONS"; "OR"; "ORDER"; "PARTITION"; "PARTITIONED"; "PATTERN"; "POLICY"; "REFERENCES"; "RENAME"; "REPLACE"; "ROW"; "SALT"; "SCHEMA"; "SEQUENCE"; "SERDE"; "SERDEPROPERTIES"; "SET"; "SKEWED"; "STAGE_FILE_FORMAT"; "START"; "STORAGE"; "STORED"; "TABLE"; "TABLESPACE"; "TABLE_FORMAT"; "TAG"; "TBLPROPERTIES"; "TERMINATED"; "TEXTIMAGE_ON"; "TYPE"; "UPDATE"; "USING"; "VISIBLE"; "WITHOUT"].
+Definition colname_letters : list letter := G :: map K colname_keywords.
+Definition is_col_letter (l : letter) : bool := existsb (letter_eqb l) colname_letters.
+(* a word the lexer types ID where a column name is expected: a plain word or one of those keywords, in any letter case *)
+Definition is_col_word (w : string) : bool :=
+  is_col_letter (LWord (info_of w)) && String.eqb (strip_trailing_comma w) w.
+
 (* ---------- well-formedness ------------------------------------------------------------------------------ *)
-(* a name as the parser reports it: as written, or without its one pair of delimiters under normalize_names *)
-Definition nms (norm : bool) (s : string) : string := if norm then normalize_id s else s.
+(* a name as the parser reports it: as written, or without its one pair of delimiters under normalize_names
+   (nms is Entity.nms) *)
 
 (* an unsigned integer literal *)
 Definition is_digits (w : string) : bool := is_num w && isnumeric w.
@@ -50,7 +63,7 @@ Definition is_digits (w : string) : bool := is_num w && isnumeric w.
 Definition is_type_word (norm : bool) (w : string) : bool := is_plain w && plain_type_word (nms norm w).
 Definition is_value_word (norm : bool) (w : string) : bool := is_plain w && negb (default_bad (nms norm w)).
 Definition is_action_word (norm : bool) (w : string) : bool := is_plain w && negb (refaction_bad (nms norm w)).
-Definition is_colname (norm : bool) (w : string) : bool := is_plain w && negb (colname_bad (nms norm w)).
+Definition is_colname (norm : bool) (w : string) : bool := is_col_word w && negb (colname_bad (nms norm w)).
 
 Definition wf_null (n : nullk) : bool :=
   match n with NNull k => is_kw k "NULL" | NNot a b => is_kw a "NOT" && is_kw b "NULL" end.
@@ -58,7 +71,7 @@ Definition wf_on (norm : bool) (o : option (string * string * string)) (what : s
   match o with Some (a, b, act) => is_kw a "ON" && is_kw b what && is_action_word norm act | None => true end.
 Definition wf_ref (norm : bool) (r : refspec) : bool :=
   is_kw (r_kw r) "REFERENCES" && match r_schema r with Some s => is_plain s | None => true end && is_plain (r_table r)
-  && match r_col r with Some c => is_plain c | None => true end
+  && match r_col r with Some c => is_col_word c | None => true end
   && wf_on norm (r_ondel r) "DELETE" && wf_on norm (r_onupd r) "UPDATE"
   && match r_null r with Some n => wf_null n | None => true end.
 Definition wf_opt (norm : bool) (o : copt) : bool :=
@@ -90,7 +103,7 @@ Definition wf_col (norm : bool) (c : column) : bool :=
   && forallb (wf_opt norm) (c_opts c) && no_ref_then_null (c_opts c).
 Definition wf (norm : bool) (t : table) : bool :=
   is_kw (t_create t) "CREATE" && is_kw (t_table t) "TABLE"
-  && match t_schema t with Some s => is_plain s | None => true end && is_plain (t_name t)
+  && match t_schema t with Some s => is_name s | None => true end && is_name (t_name t)
   && wf_col norm (t_first t) && forallb (wf_col norm) (t_rest t).
 
 (* ---------- rendering ------------------------------------------------------------------------------------------- *)
@@ -194,7 +207,7 @@ Definition on_letters (o : option (string * string * string)) (what : string) : 
   match o with Some _ => [K "ON"; K what; G] | None => [] end.
 Definition ref_letters (r : refspec) : list letter :=
   K "REFERENCES" :: (match r_schema r with Some _ => [G; LDot] | None => [] end) ++ [G]
-  ++ (match r_col r with Some _ => [LPl; G; RPl] | None => [] end)
+  ++ (match r_col r with Some c => [LPl; LWord (info_of c); RPl] | None => [] end)
   ++ on_letters (r_ondel r) "DELETE" ++ on_letters (r_onupd r) "UPDATE"
   ++ (match r_null r with Some n => null_letters n | None => [] end).
 Definition opt_letters (o : copt) : list letter :=
@@ -208,19 +221,19 @@ Definition opt_letters (o : copt) : list letter :=
   | ORef r => ref_letters r
   end.
 Definition col_letters (c : column) : list letter :=
-  G :: G :: (match c_ty2 c with Some _ => [G] | None => [] end)
+  LWord (info_of (c_name c)) :: G :: (match c_ty2 c with Some _ => [G] | None => [] end)
   ++ (match c_size c with
       | Some (_, None) => [LPl; G; RPl]
       | Some (_, Some _) => [LPl; G; CMl; G; RPl]
       | None => [] end)
   ++ flat_map opt_letters (c_opts c).
 Definition letters (t : table) : list letter :=
-  K "CREATE" :: K "TABLE" :: (match t_schema t with Some _ => [G; LDot] | None => [] end) ++ [G; LPl]
+  K "CREATE" :: K "TABLE" :: (match t_schema t with Some s => [LWord (info_of s); LDot] | None => [] end) ++ [LWord (info_of (t_name t)); LPl]
   ++ col_letters (t_first t) ++ flat_map (fun c => CMl :: col_letters c) (t_rest t) ++ [RPl].
 
 Definition alphabet : list letter :=
   [K "CREATE"; K "TABLE"; G; LDot; LStr; LPl; RPl; CMl; K "NOT"; K "NULL"; K "DEFAULT"; K "PRIMARY"; K "KEY"; K "UNIQUE";
-   K "REFERENCES"; K "ON"; K "DELETE"; K "UPDATE"].
+   K "REFERENCES"; K "ON"; K "DELETE"; K "UPDATE"] ++ name_letters ++ colname_letters.
 
 (* ---------- the reference machine F ---------------------------------------------------------------------------------- *)
 Inductive ctx := First | Later.
@@ -317,15 +330,15 @@ Definition fstep (s : q) (l : letter) : option (fout * q) :=
   match s with
   | T0 => if is l "CREATE" then Some (([], "CREATE", Upper), T1) else None
   | T1 => if is l "TABLE" then Some (([], "TABLE", Upper), T2) else None
-  | T2 => if isG l then Some ((["create_table -> CREATE TABLE"], "ID", Keep), N1) else None
+  | T2 => if is_name_letter l then Some ((["create_table -> CREATE TABLE"], "ID", Keep), N1) else None
   | N1 => if isl l LDot then Some ((["id -> ID"], "DOT", Keep), ND)
           else if isl l LPl then Some ((["id -> ID"; "t_name -> id"; "table_name -> create_table t_name"], "LP", Keep), C0 First)
           else None
-  | ND => if isG l then Some (([], "ID", Keep), N2) else None
+  | ND => if is_name_letter l then Some (([], "ID", Keep), N2) else None
   | N2 => if isl l LPl then Some ((["id -> ID"; "t_name -> id DOT id"; "table_name -> create_table t_name"], "LP", Keep), C0 First)
           else None
   | END => None
-  | C0 c => if isG l then Some (([], "ID", Keep), C1 c) else None
+  | C0 c => if is_col_letter l then Some (([], "ID", Keep), C1 c) else None
   | C1 c => if isG l then Some ((["id -> ID"], "ID", Keep), B c PT1) else None
   | SZ0 c two => if isG l then Some (([], "ID", Keep), SZ1 c) else None
   | SZ1 c => if isl l RPl then Some ((["id -> ID"], "RP", Upper), B c PSz1)
@@ -339,7 +352,7 @@ Definition fstep (s : q) (l : letter) : option (fout * q) :=
   | PK0 c => if is l "KEY" then Some (([], "KEY", Upper), B c PPk) else None
   | R0 c => if isG l then Some (([], "ID", Keep), B c PRefT1) else None
   | RD c => if isG l then Some (([], "ID", Keep), B c PRefT2) else None
-  | RC0 c => if isG l then Some (([], "ID", Keep), RC1 c) else None
+  | RC0 c => if is_col_letter l then Some (([], "ID", Keep), RC1 c) else None
   | RC1 c => if isl l RPl then Some ((["id -> ID"; "pid -> id"], "RP", Upper), B c PRefCol) else None
   | RON c => if is l "DELETE" then Some (([], "DELETE", Upper), ROD c)
              else if is l "UPDATE" then Some (([], "UPDATE", Upper), ROU c) else None
